@@ -272,8 +272,8 @@ Definition pid_of (n : string) : option Z := pd_get n amp_names.
 """
     terms, flat_states = [], []
     # the model reads the same texts as the implementation (coq/Amp/Text.v), not structures prepared in Python
-    pre += "".join(f"Definition pool_file_{k} : list oline := Eval vm_compute in match parse_text {vlib.cstr(t)} with Some f => f | None => [] end.\n" for k, t in enumerate(pool_txt))
-    coq_files = "[" + "; ".join(f"pool_file_{k}" for k in range(len(pool_txt))) + "]"
+    pre += "".join(f"Definition pool_opt_{k} := Eval vm_compute in parse_text {vlib.cstr(t)}.\n" for k, t in enumerate(pool_txt))
+    coq_files = "[" + "; ".join(f"match pool_opt_{k} with Some f => f | None => [] end" for k in range(len(pool_txt))) + "]"
     for h, run in zip(hists, runs):
         ops = "[" + "; ".join({"read": "ORead", "readtext": "ORead", "cpp": "OCpp", "py": "OPy"}[op[0]] + " " + ({"AmplitudeChain": "CBase", "GooFitChain": "CCpp", "GooFitPyChain": "CPy", None: ""}[op[1]]) + f" {op[2]}%nat" for op in h["ops"]) + "]"
         terms.append(f"vhistory pid_of 40 {coq_files} {ops}")
